@@ -17,7 +17,7 @@
 #include "spec/C11_escape.h"
 
 #ifdef VERIF_SMALL
-#define ESC_MAXLEN 6
+#define ESC_MAXLEN 2
 #else
 #define ESC_MAXLEN 0x0FFFFFFFFFFFull       /* 2^44-1: 4 * length + 4 stays below the cbmc object size limit */
 #endif
@@ -73,7 +73,7 @@ STEP_ENSURES(ESC_U_OK);
 #define ESC_FN_ENSURES(OK) \
   __CPROVER_ensures(s->size == 0 ==> ret->size == 0) \
   __CPROVER_ensures((g_k == 0 && s->size != 0) ==> g_pos == 0) \
-  __CPROVER_ensures(g_k < s->size ==> (g_olen >= 1 && g_olen <= 4 && g_pos + g_olen == (g_k + 1 < s->size ? g_pos1 : ret->size))) \
+  __CPROVER_ensures(g_k < s->size ==> (g_olen >= 1 && g_olen <= 4 && g_pos <= ret->size && g_olen <= ret->size - g_pos && g_pos + g_olen == (g_k + 1 < s->size ? g_pos1 : ret->size))) \
   __CPROVER_ensures(g_k < s->size ==> (ESC_AT(0) == g_o0 && (g_olen < 2 || ESC_AT(1) == g_o1) && (g_olen < 3 || ESC_AT(2) == g_o2) && (g_olen < 4 || ESC_AT(3) == g_o3))) \
   __CPROVER_ensures(g_k < s->size ==> OK(g_o0, g_o1, g_o2, g_o3, g_olen, g_kch, g_flag)) \
   __CPROVER_assigns(g_sc, g_pos, g_pos1, g_olen, g_o0, g_o1, g_o2, g_o3, ret->size, __CPROVER_object_whole(ret->data))
